@@ -5,6 +5,7 @@
 package c17
 
 import (
+	"bytes"
 	"encoding/json"
 	"fmt"
 	"math/rand"
@@ -858,7 +859,87 @@ func sessionReplaced(r *monitor.Run) {
 	}
 }
 
+// awkwardMessages: a message is forwarded "exactly as a local subscriber would receive it" whatever it carries:
+// Correlation Data is binary data (not necessarily UTF-8), and a payload may have several megabytes. Each awkward message
+// is followed by an ordinary one, which shows whether the link between the nodes survived.
+func awkwardMessages(r *monitor.Run) {
+	for _, kind := range []string{"binary_correlation_data", "payload_5MiB"} {
+		func() {
+			id := atomic.AddInt64(&scenarioSeq, 1)
+			a, err := fed.Start(fmt.Sprintf("c17w%dA", id), nil, false, nil)
+			if err != nil {
+				r.Inconclusive("pair: " + err.Error())
+				return
+			}
+			defer a.Stop()
+			b, err := fed.Start(fmt.Sprintf("c17w%dB", id), []string{a.Gossip}, false, nil)
+			if err != nil {
+				r.Inconclusive("pair: " + err.Error())
+				return
+			}
+			defer b.Stop()
+			sub, err := wire.Dial("aw-sub", b.B.Addr, mqttx.V5)
+			if err != nil {
+				r.Inconclusive(err.Error())
+				return
+			}
+			defer sub.Close()
+			_, _ = sub.Connect(&mqttx.Packet{ClientID: "aw-sub", CleanStart: true}, step)
+			if _, err := sub.Subscribe([]mqttx.Sub{{Filter: "aw/#", QoS: 1}}, 0, step); err != nil {
+				r.Inconclusive(err.Error())
+				return
+			}
+			if !fed.WaitView(a, b, settle) {
+				r.Inconclusive("awkward: views not stable")
+				return
+			}
+			pub, err := wire.Dial("aw-pub", a.B.Addr, mqttx.V5)
+			if err != nil {
+				r.Inconclusive(err.Error())
+				return
+			}
+			defer pub.Close()
+			_, _ = pub.Connect(&mqttx.Packet{ClientID: "aw-pub", CleanStart: true}, step)
+			r.Eval(1)
+			first := &mqttx.Packet{Topic: "aw/t", QoS: 1, Payload: []byte("awkward")}
+			switch kind {
+			case "binary_correlation_data":
+				first.Props = &mqttx.Props{CorrelationData: []byte{0xff, 0xfe, 0x00, 0x80}, HasCorrelationData: true}
+			case "payload_5MiB":
+				first.Payload = append([]byte("awkward"), bytes.Repeat([]byte{'x'}, 5<<20)...)
+			}
+			if _, err := pub.Publish(first, 30*time.Second); err != nil {
+				r.Inconclusive("awkward publish: " + err.Error())
+				return
+			}
+			if _, err := pub.Publish(&mqttx.Packet{Topic: "aw/t", QoS: 1, Payload: []byte("ordinary-after")}, step); err != nil {
+				r.Inconclusive(err.Error())
+				return
+			}
+			gotFirst, gotAfter := false, false
+			if err := sub.WaitPayload("ordinary-after", settle); err == nil {
+				gotAfter = true
+			}
+			for _, rec := range sub.Publishes() {
+				if bytes.HasPrefix(rec.P.Payload, []byte("awkward")) && len(rec.P.Payload) == len(first.Payload) {
+					gotFirst = true
+					if kind == "binary_correlation_data" && (rec.P.Props == nil || !bytes.Equal(rec.P.Props.CorrelationData, first.Props.CorrelationData)) {
+						r.Violation("awkward.altered:"+kind, fmt.Sprintf("the remote subscriber received the message with Correlation Data %x, published %x", rec.P.Props, first.Props.CorrelationData), nil)
+					}
+				}
+			}
+			if !gotFirst || !gotAfter {
+				r.Violation(fmt.Sprintf("awkward.not_forwarded:%s:first=%v:following=%v", kind, gotFirst, gotAfter), fmt.Sprintf("a message with %s published on node A for a subscriber on node B: delivered=%v; the ordinary message published after it: delivered=%v (within %v)", kind, gotFirst, gotAfter, settle), nil)
+				return
+			}
+			r.Count("awkward_messages_forwarded", 1)
+			r.Nontrivial("awkward|" + kind)
+		}()
+	}
+}
+
 func Run(r *monitor.Run) {
+	awkwardMessages(r)
 	storeFailsWhileSessionEnds(r)
 	sessionReplaced(r)
 	n := r.Pick(16, 400)
